@@ -458,6 +458,22 @@ def apply_mod_mapping(match, molecule, graph_out, mol_to_out, out_to_mol):
         if modification not in graph_out.nodes[out_idx]['modifications']:
             graph_out.nodes[out_idx]['modifications'].append(modification)
 
+    # The particles this modification adds belong to the residue of the
+    # particle they are attached to. Without a resid they would later be given
+    # the residue number of the input, and the residue numbering of everything
+    # added after them would start over.
+    for mod_idx, out_idx in mod_to_out.items():
+        if node_should_exist(modification, mod_idx) or 'resid' in graph_out.nodes[out_idx]:
+            continue
+        anchors = [mod_to_out[neighbor] for neighbor in modification[mod_idx]
+                   if node_should_exist(modification, neighbor)]
+        anchors += [other_out for other_mod, other_out in mod_to_out.items()
+                    if node_should_exist(modification, other_mod)]
+        for anchor in anchors:
+            if 'resid' in graph_out.nodes[anchor]:
+                graph_out.nodes[out_idx]['resid'] = graph_out.nodes[anchor]['resid']
+                break
+
     for mol_idx in mol_to_mod:
         for mod_idx, weight in mol_to_mod[mol_idx].items():
             out_idx = mod_to_out[mod_idx]
